@@ -232,7 +232,10 @@ def gen_module(rng, params):
     # alignment
     if rng.random() < params.get("align_p", 0.3):
         for b in blocks + dblocks:
-            if rng.random() < 0.3:
+            # (ARM64: a nop instruction of the program and a 4-byte nop of
+            # padding cannot be told apart by the byte matcher; code
+            # alignment is exercised on x86, where C10 lives)
+            if rng.random() < 0.3 and (isa != "arm64" or b["kind"] == "data"):
                 b["align"] = rng.choice([2, 4, 8, 16])
         desc["alignment_table"] = True
     elif fmt == "pe":
@@ -628,6 +631,8 @@ def module_desc_ok(desc):
     """CFI of the module descriptor is well formed: displacements inside
     their block, .cfi_startproc/.cfi_endproc alternate, CFA defined."""
     isa = desc["isa"]
+    if isa == "arm64" and not desc.get("exotic") and any(b.get("align") and b["kind"] == "code" for sec in desc["sections"] for u in sec["units"] for b in u["blocks"]):
+        return False  # (see gen_module: no code alignment on ARM64)
     for sec in desc["sections"]:
         open_ = False
         for u in sec["units"]:
@@ -741,7 +746,10 @@ def shape_ok(model, sd, params):
         """nothing falls off the end of code (calls_only: only a call needs
         code behind it - its return site)"""
         for sname in mm.section_order:
-            seq = [t for u in mm.sections[sname] for t in u.toks if t.is_bytes() and t.origin != "pad"]
+            # (nop padding is transparent; zero padding - which the library
+            # uses in front of an aligned block that starts a byte interval -
+            # is data like any other)
+            seq = [t for u in mm.sections[sname] for t in u.toks if t.is_bytes() and not (t.origin == "pad" and t.kind == "insn")]
             for a, b in zip(seq, seq[1:] + [None]):
                 if a.kind == "insn" and a.ikind not in NO_FALLTHROUGH and a.ikind not in ("ret", "pad"):
                     if calls_only and a.ikind not in ("call", "icall"):
